@@ -269,6 +269,8 @@ func DrawWorld(t *rapid.T, cfg WorldCfg) (*World, *Drawn) {
 			w.RootCrl.Revoked = append(w.RootCrl.Revoked, unrelatedSerial(s))
 		}
 		d.add(n1+n2 > 0, "crl-entries")
+		w.CrossIssuerSerials = rapid.IntRange(0, 2).Draw(t, "crossIssuerSerials") == 0
+		d.add(w.CrossIssuerSerials, "crl-lists-serials-of-the-other-issuer")
 		// five distinct instants anywhere inside the wide windows
 		span := int64(Wide.NotAfter.Sub(Wide.NotBefore)/time.Second) - 20
 		pick := func(label string) time.Time {
